@@ -61,8 +61,9 @@ func VerifC10StakeCancel() {
 			verifReach("cancel applied", true)
 			d := o.block.DescendantBlocks
 			verifAssert(len(d) == 1 && d[0].TokenStandard == types.ZnnTokenStandard && d[0].ToAddress == e.send.Address, "cancel pays ZNN to the caller")
-			if entryAfter.RevokeTime != E.RevokeTime || entryAfter.Amount.Cmp(E.Amount) != 0 {
-				// the step touched E
+			{
+				// E is the only entry in storage, so an applied cancel released E
+				verifAssert(entryAfter.RevokeTime == now, "the released entry records its revocation")
 				verifAssert(e.send.Address == E.StakeAddress, "a stake is released only to its owner")
 				verifAssert(now >= E.ExpirationTime, "a stake is not released before its expiration time")
 				verifAssert(d[0].Amount.Cmp(E.Amount) == 0, "exactly the staked amount is paid out")
